@@ -194,6 +194,13 @@ def one_case(rng, res):
             v = products[kx]["sha256"]
             products[kx] = rng.choice([{"sha512": (v * 2)[:128]}, {}, {"sha256": v, "sha512": (v * 2)[:128]}, {"md5": v[:32]}])
             foreign.append(kx)
+    if products and rng.random() < 0.15:
+        # a link written by another tool: a product under a name that is not in normalised spelling. Names are compared as
+        # they are: the product is "only in the link", the local file "not in the link" - in either metadata format.
+        kx = rng.choice(sorted(products))
+        alias = rng.choice(["./" + kx, kx.replace("/", "//", 1) if "/" in kx else "./" + kx, "zz/../" + kx])
+        products[alias] = products.pop(kx)
+        foreign.append(alias)
     desc = {"edits": edits, "patterns": patterns, "lstrip": lstrip, "paths": paths, "n_products": len(products), "foreign_hash_records": foreign}
     i, statuses = run_impl(local_tree, products, paths, patterns, lstrip, first_tree=tree if rng.random() < 0.6 else None)
     m = core.driver().call({"op": "match_products",
